@@ -23,6 +23,7 @@ static GridSpec parseSpec(const char *s){
   if (t.size() > 10) g.alpha = atof(t[10].c_str());
   if (t.size() > 11) g.beta = atof(t[11].c_str());
   if (g.aniso == 2 && g.type.find("curved") != std::string::npos){ for (int j=0;j<g.dims;j++) g.aw.push_back(2); for (int j=0;j<g.dims;j++) g.aw.push_back(-3); }   // linear + curved < 0: the selection is not provably a lower set (general selection path)
+  else if (g.aniso == 3){ for (int j=0;j<g.dims;j++) g.aw.push_back(j == 0 ? 3 : 1); if (g.type.find("curved") != std::string::npos) for (int j=0;j<g.dims;j++) g.aw.push_back(0); }   // a shallow first direction
   else if (g.aniso){ for (int j=0;j<g.dims;j++) g.aw.push_back(1 + (j % 2)); if (g.type.find("curved") != std::string::npos) for (int j=0;j<g.dims;j++) g.aw.push_back(j % 2); }
   if (g.limits == 1){ for (int j=0;j<g.dims;j++) g.ll.push_back(j == 0 ? 1 : -1); }
   if (g.limits == 2){ for (int j=0;j<g.dims;j++) g.ll.push_back(j == 0 ? 2 : 1); }
